@@ -181,6 +181,16 @@ def main():
                          'active_children': len(multiprocessing.active_children())}
     print('RESULT ' + json.dumps(result, default=str))
     sys.stdout.flush()
+    # (os._exit skips multiprocessing's own clean-up: remove its temporary directory here)
+    try:
+        import shutil
+        from multiprocessing import util as _mpu
+        tmp = _mpu._current_process._config.get('tempdir') if hasattr(_mpu, '_current_process') else None
+        tmp = tmp or multiprocessing.current_process()._config.get('tempdir')
+        if tmp and os.path.basename(tmp).startswith('pymp-'):
+            shutil.rmtree(tmp, ignore_errors=True)
+    except Exception:
+        pass
     os._exit(0)
 
 
